@@ -23,7 +23,12 @@ RULE = ("streams (all in both tiers): 'cpd' random CPDs with 0..4 parents, cardi
         "cardinality=None, missing cardinality), every parent permutation for reorder_parents (inplace True and False), "
         "marginalize and reduce on every subset of parents (by state name, in place and out of place), normalize, copy, "
         "to_factor, is_valid_cpd, and the independence of every derived object under every in-place operation in both "
-        "directions; 'valid' column sums at 1 +- (0.01+1e-5) +- margin; 'malformed' rejected calls (bad new_order, child in "
+        "directions; 'valid' column sums at 1 +- (0.01+1e-5) +- margin; 'validx' non-finite tables (a nan / +inf / -inf entry, +inf and "
+        "-inf in one column, a whole nan column, normalize() of an all-zero column = 0/0), negative entries that still sum to "
+        "one (valid as coded), sums at 1 +- 0.01 and at 1 +- (0.01+1e-5 -+ 1e-9) - oracle: the model's is_valid_cpd extended "
+        "to non-finite entries (any non-finite entry => invalid), also after normalize in the 'cpd' and 'session' streams; "
+        "the 'bn' faults include a nan entry, an infinite entry, a normalised all-zero column (all rejected) and negative "
+        "entries summing to one (accepted); 'malformed' rejected calls (bad new_order, child in "
         "arguments, duplicates, unknown state names falling back to numbers, bad shapes); 'session' 6 in-place operations "
         "(reorder/marginalize/reduce/normalize/copy and calls rejected because a LATER argument is invalid) on ONE CPD object "
         "with read-only calls in between, the object compared with the model after every step; 'bn' networks correct or "
@@ -190,8 +195,55 @@ def gen_valid(rng):
             "qseed": rng.randint(0, 10 ** 9), "bound": [inout, side, str(margin)]}
 
 
+NONFINITE = {"nan": float("nan"), "inf": float("inf"), "-inf": float("-inf")}
+
+
+def gen_valid_special(rng):
+    """non-finite entries, negative entries that still sum to one, sums at 1 +- 0.01 and at 1 +- (tol -+ 1e-9)"""
+    k = rng.randint(0, 2)
+    ccard, pc = rand_cards(rng, k)
+    if ccard == 1:
+        ccard = 2
+    P = math.prod(pc)
+    rows = rand_table(rng, ccard, P, "norm")
+    j = rng.randrange(P)
+    what = rng.choice(["nan", "inf", "-inf", "inf-inf", "nan-all-column", "normalize-zero-column", "neg-sum1",
+                       "sum=1+0.01", "sum=1-0.01", "tol-1e-9", "tol+1e-9"])
+    nf, normalize, expect = [], False, None
+    i = rng.randrange(ccard)
+    if what in ("nan", "inf", "-inf"):
+        nf, expect = [[i, j, what]], False
+    elif what == "inf-inf":
+        nf, expect = [[0, j, "inf"], [1, j, "-inf"]], False
+    elif what == "nan-all-column":
+        nf, expect = [[t, j, "nan"] for t in range(ccard)], False
+    elif what == "normalize-zero-column":
+        rows = rand_table(rng, ccard, P, "free")
+        for t in range(ccard):
+            rows[t][j] = Fraction(0)
+        normalize, expect = True, False
+    elif what == "neg-sum1":
+        i2 = (i + 1) % ccard
+        rows[i][j] -= Fraction(3, 2)
+        rows[i2][j] += Fraction(3, 2)
+        expect = True
+    elif what in ("sum=1+0.01", "sum=1-0.01"):
+        i = max(range(ccard), key=lambda t: rows[t][j])
+        rows[i][j] += dy(Fraction(1, 100) if "+" in what else Fraction(-1, 100))
+        expect = True
+    else:
+        side = rng.choice([-1, 1])
+        m9 = Fraction(1, 10 ** 9)
+        i = max(range(ccard), key=lambda t: rows[t][j])
+        rows[i][j] += dy(side * (TOL + (m9 if what == "tol+1e-9" else -m9)))
+        expect = what == "tol-1e-9"
+    return {"k": k, "ccard": ccard, "pc": pc, "rows": [[fr(x) for x in r] for r in rows], "mode": "special",
+            "style": "default", "vstyle": "str", "sn": None, "nameseed": rng.randint(0, 10 ** 9),
+            "qseed": rng.randint(0, 10 ** 9), "special": what, "nf": nf, "normalize": normalize, "expect": expect}
+
+
 FAULTS = ["none", "none", "missing_cpd", "wrong_parents", "wrong_card", "sn_mismatch", "sn_partial",
-          "sum_out", "sum_in"]
+          "sum_out", "sum_in", "nan_entry", "inf_entry", "nan_normalized", "neg_sum1"]
 
 
 def gen_bn(rng, nmax):
@@ -288,6 +340,26 @@ def gen_bn(rng, nmax):
         i = max(range(d["card"]), key=lambda t: d["rows"][t][j])
         d["rows"][i][j] += delta
         applied = fault
+    if fault in ("nan_entry", "inf_entry", "nan_normalized", "neg_sum1") and any(d["v"] == target for d in cpds):
+        d = by_v[target]
+        P = math.prod(d["pc"])
+        j = rng.randrange(P)
+        i = rng.randrange(d["card"])
+        if fault == "nan_entry":
+            d["nf"] = [[i, j, "nan"]]
+            applied = fault
+        elif fault == "inf_entry":
+            d["nf"] = [[i, j, rng.choice(["inf", "-inf"])]]
+            applied = fault
+        elif fault == "nan_normalized":
+            for t in range(d["card"]):
+                d["rows"][t][j] = Fraction(0)
+            d["normalize"] = True
+            applied = fault
+        elif d["card"] >= 2:
+            d["rows"][i][j] -= Fraction(5, 4)
+            d["rows"][(i + 1) % d["card"]][j] += Fraction(5, 4)
+            applied = fault
     for d in cpds:
         d["rows"] = [[fr(x) for x in r] for r in d["rows"]]
     return {"n": n, "nodes": nodes, "edges": edges, "cards": cards, "style": style, "sn": sn, "fault": applied,
@@ -376,6 +448,10 @@ def cases(tier, seed):
     for _ in range(nvalid):
         c = gen_valid(rng)
         c["kind"] = "valid"
+        out.append(c)
+    for _ in range(66 if tier == "quick" else 700):
+        c = gen_valid_special(rng)
+        c["kind"] = "validx"
         out.append(c)
     for _ in range(nbn):
         c = gen_bn(rng, 5 if tier == "quick" else 6)
@@ -1109,6 +1185,10 @@ def run_cpd(case, drv):
         b = cmp_forms("normalize", impc, model_form(mr, opt=True), obj.get_values())
         if b:
             return b
+        nv = bool(drv.call("c05_normvalid", [args]))
+        if bool(obj.is_valid_cpd()) != nv:
+            return bad("impl!=model:is_valid_cpd-after-normalize", {"impl": bool(obj.is_valid_cpd()), "model": nv,
+                                                                     "nonfinite": any(x is None for x in model_form(mr, opt=True)["flat"])})
         gv = np.asarray(to_np(obj.get_values()), dtype=float)
         for j in range(gv.shape[1]):
             s0 = sum(rows[i][j] for i in range(case["ccard"]))
@@ -1194,6 +1274,55 @@ def run_valid(case, drv):
         return bad("harness-inconsistent:boundary", {"bound": case["bound"]})
     return ok(nontrivial=True, key=common.canon_key(["valid", case["rows"], case["pc"]]),
               tags=["boundary=%s side=%+d margin=%s" % (inout, side, margin), "verdict=%s" % iv])
+
+
+
+def orows(rows, nf):
+    """model-side table: [x] for a finite entry, [] for a non-finite one"""
+    bad_ = {(i, j) for i, j, _ in nf}
+    return [[[] if (i, j) in bad_ else [x] for j, x in enumerate(r)] for i, r in enumerate(rows)]
+
+
+def frows(rows, nf):
+    """implementation-side table: floats with the non-finite entries put in"""
+    out = [[float(x) for x in r] for r in rows]
+    for i, j, what in nf:
+        out[i][j] = NONFINITE[what]
+    return out
+
+
+def make_impl_f(N, v, card, frows_, ev, ec, sn_py):
+    from pgmpy.factors.discrete import TabularCPD
+    vn = N.varnames
+    kw = {}
+    if sn_py:
+        kw["state_names"] = {vn[u]: list(lst) for u, lst in sn_py.items()}
+    return TabularCPD(vn[v], card, frows_, evidence=[vn[u] for u in ev], evidence_card=list(ec), **kw)
+
+
+def run_validx(case, drv):
+    k = case["k"]
+    N = Names(var_names(case, k + 1))
+    rows = case_rows(case, case["rows"])
+    ev = list(range(1, k + 1))
+    pc = case["pc"]
+    what = case["special"]
+    cpd = make_impl_f(N, 0, case["ccard"], frows(rows, case["nf"]), ev, pc, None)
+    if case["normalize"]:
+        cpd.normalize(inplace=True)
+        mvalid = drv.call("c05_normvalid", [ctor_args(N, 0, case["ccard"], rows, ev, pc, None)])
+    else:
+        _, mvalid = drv.call("c05_ovalid", [[0, case["ccard"], orows(rows, case["nf"]), ev, list(pc), []]])
+    iv = bool(cpd.is_valid_cpd())
+    tiny_margin = what.startswith("tol")
+    exp = case["expect"]
+    if tiny_margin and case.get("backend") == "torch":
+        exp = None      # float32 rounding of the inputs is larger than the 1e-9 margin: model and code still agree
+    if iv != bool(mvalid) or (exp is not None and iv != exp):
+        return bad("impl!=model:is_valid_cpd-special", {"what": what, "impl": iv, "model": bool(mvalid), "expected": exp,
+                                                         "table": str(frows(rows, case["nf"]))[:300]})
+    return ok(nontrivial=True, key=common.canon_key(["validx", case["rows"], case["pc"], what, case["nf"]]),
+              tags=["special=" + what, "verdict=%s" % iv])
 
 
 # ------------------------------------------------------------------ malformed stream
@@ -1353,8 +1482,17 @@ def run_bn(case, drv):
             if d["sn_keys"] is not None:
                 snd = {u: snd[u] for u in d["sn_keys"]}
         rows = case_rows(case, d["rows"])
-        margs.append(ctor_args(N, d["v"], d["card"], rows, d["pa"], d["pc"], snd))
-        objs.append(make_impl(N, d["v"], d["card"], rows, d["pa"], d["pc"], snd))
+        nf = d.get("nf", [])
+        a_ = ctor_args(N, d["v"], d["card"], rows, d["pa"], d["pc"], snd)
+        obj = make_impl_f(N, d["v"], d["card"], frows(rows, nf), d["pa"], d["pc"], snd)
+        if d.get("normalize"):
+            obj.normalize(inplace=True)
+            mo = drv.call("c05_normalize", [a_])      # [child card pars pcards vals sn rows], entries [] or [q]
+            a_ = a_[:2] + [mo[6]] + a_[3:]
+        else:
+            a_ = a_[:2] + [orows(rows, nf)] + a_[3:]
+        margs.append(a_)
+        objs.append(obj)
     model.add_cpds(*objs)
     # queries
     rng = random.Random(case["qseed"])
@@ -1368,7 +1506,7 @@ def run_bn(case, drv):
     queries.append([(v0, "nosuchstate")])
     queries.append([(n, 0)])  # a variable that is not in the model
     qm = [[[v, N.st(s)] for v, s in q] for q in queries]
-    code, gsp, cardl = drv.call("c05_bn", [case["nodes"], case["edges"], margs, qm])
+    code, gsp, cardl = drv.call("c05_bno", [case["nodes"], case["edges"], margs, qm])
     # check_model
     try:
         res = model.check_model()
@@ -1386,7 +1524,7 @@ def run_bn(case, drv):
         tags.append("kind-unclassified")
     # expected verdict from the injected fault class
     exp = {"none": [0], "missing_cpd": [1], "wrong_card": [5], "sn_mismatch": [6], "sn_partial": [3], "sum_out": [4],
-           "sum_in": [0]}.get(case["fault"].split(":")[0])
+           "sum_in": [0], "nan_entry": [4], "inf_entry": [4], "nan_normalized": [4], "neg_sum1": [0]}.get(case["fault"].split(":")[0])
     if case["fault"].startswith("wrong_parents"):
         exp = [2]
     if exp is not None and code not in exp:
@@ -1862,6 +2000,8 @@ def run_session(case, drv):
             b["detail"].update(info)
             return b
         if rep[0] == 2:
+            if bool(obj.is_valid_cpd()) != bool(rep[2]):
+                return bad("impl!=model:session-is_valid_cpd(non-finite)", dict(info, impl=bool(obj.is_valid_cpd()), model=bool(rep[2])))
             tags.append("non-finite-end")
             break
         if bool(obj.is_valid_cpd()) != bool(rep[2]):
@@ -2159,6 +2299,8 @@ def run_case_(case, drv):
         return run_cpd(case, drv)
     if kind == "valid":
         return run_valid(case, drv)
+    if kind == "validx":
+        return run_validx(case, drv)
     if kind == "malformed":
         return run_malformed(case, drv)
     if kind == "bn":
